@@ -28,6 +28,10 @@ OutOf(ps, recorded) == IF ps.aborted THEN "ParseError" ELSE recorded
 \* verdict of one vocabulary call, "" = fine
 VocabCall(c, tb, o1, s1) ==
     IF o1.outside THEN "outside"
+    ELSE IF (c.frag \in BadContainers) # (c.out = "rejected") THEN "reject:argument-domain"
+    ELSE IF c.out = "rejected" THEN (IF c.toks # <<>> THEN "reject:argument-domain"
+                                     ELSE IF c.pend # o1.pend \/ c.spaceH # o1.spaceH THEN "reject:persistent-fields"
+                                     ELSE IF ~c.eqFresh THEN "reject:history-dependence" ELSE "")
     ELSE IF c.out \notin {"ok", "ParseError", "SourceError"} THEN "reject:exception-class"
     ELSE IF (c.out = "ParseError") # o1.aborted THEN "reject:strict-outcome"
     ELSE IF o1.aborted /\ (c.toks = <<>> \/ Run(LcBegin(obj, c.frag, c.strict), Front(c.toks)).aborted) THEN "reject:abort-point"
